@@ -381,13 +381,26 @@ def run_sf_history(c):
                 if o["op"] == "mutate":
                     o["value"] = list(o["value"])
                     o["value"][i] = 0.25
+    for i in list(c.get("narrow") or []):
+        # a side that is narrow but NOT degenerate: [0.25, 0.25 + 2e-9], every point of the history at its middle
+        c = dict(c, x0=list(c["x0"]), ops=[dict(o) for o in c["ops"]])
+        lb[i], ub[i] = 0.25, 0.25 + 2e-9
+        c["x0"][i] = 0.25 + 1e-9
+        for o in c["ops"]:
+            if "point" in o:
+                o["point"] = list(o["point"])
+                o["point"][i] = 0.25 + 1e-9
+            if o["op"] == "mutate":
+                o["value"] = list(o["value"])
+                o["value"][i] = 0.25 + 1e-9
     free = [i for i in range(n) if i not in deg]
     mode = c["jac"]
     jac = g if mode == "callable" else (None if mode == "none" else mode)
-    sf = prepare_scalar_function(f, np.array(c["x0"], float), jac=jac, bounds=(lb, ub), epsilon=c.get("eps", 1e-8), finite_diff_rel_step=c.get("rel_step"))
+    x0arr = np.array(c["x0"], float)
+    sf = prepare_scalar_function(f, x0arr, jac=jac, bounds=(lb, ub), epsilon=c.get("eps", 1e-8), finite_diff_rel_step=c.get("rel_step"))
     bad = {}
     scale = 1.0
-    last = None
+    last = x0arr      # the array given to the constructor is 'the array passed last' (the caller may reuse / overwrite it)
     last_grad = None
     requests = []
     own_f = []     # (index into calls['f'], request index) for evaluations at requested points
